@@ -184,7 +184,11 @@ func RunPlan(pr *Profile, p *Plan, keep bool) *Outcome {
 		}
 		out.Reason = reason
 		if e.StopErr != nil && e.StopErr != errStop {
-			out.Violations = append(out.Violations, Violation{Prop: pr.Prop, Oracle: "invariant", Msg: e.StopErr.Error(), Step: e.Step, FakeNS: int64(e.Now())})
+			ip := pr.Prop
+			if m := e.StopErr.Error(); len(m) > 3 && m[0] == 'C' && m[3] == ' ' {
+				ip = m[:3]
+			}
+			out.Violations = append(out.Violations, Violation{Prop: ip, Oracle: "invariant", Msg: e.StopErr.Error(), Step: e.Step, FakeNS: int64(e.Now())})
 		}
 		for _, v := range c.Viol {
 			prop := pr.Prop
